@@ -222,12 +222,13 @@ def model_obs(case, resps):
     r = resps[0]
     if r.get('err'):
       return dict(threaded=True, err=r['err'])
-    return dict(threaded=True, err=None, full=sorted(r['log'][-1]), full_agg=agg(r))
+    return dict(threaded=True, err=None, full=sorted(r['log'][-1]), full_agg=agg(r), full_ret=agg(r))
   r, f = resps
   if r.get('err'):
     return dict(log=None, final=None, agg=None, err=r['err'], full=None, full_agg=None)
-  return dict(log=r['log'][:-1], final=r['log'][-1], agg=agg(r), err=None,
-              full=f['log'][-1], full_agg=agg(f), lost=r['lost'])
+  # `_ChainedRunnerIterator.__next__` (transform.py:489-506): exhaustion returns AggregateResult(agg_result)
+  return dict(log=r['log'][:-1], final=r['log'][-1], agg=agg(r), ret=agg(r), err=None,
+              full=f['log'][-1], full_agg=agg(f), full_ret=agg(f), lost=r['lost'])
 
 
 def compare(impl, model):
@@ -238,11 +239,13 @@ def compare(impl, model):
       return 'uninterrupted threaded run: multiset of outputs differs from the model'
     if not deep_close(impl['full_agg'], model['full_agg']):
       return 'uninterrupted threaded run: aggregate differs from the model'
+    if not deep_close(impl['full_ret'], model['full_ret']):
+      return 'uninterrupted threaded run: returned aggregate differs from the model'
     return None
   for k in ('log', 'final', 'full'):
     if impl[k] != model[k]:
       return f'{k} differs'
-  for k in ('agg', 'full_agg'):
+  for k in ('agg', 'full_agg', 'ret', 'full_ret'):
     if not deep_close(impl[k], model[k]):
       return f'{k} differs'
   return None
@@ -289,6 +292,9 @@ def oracle(case, obs):
     return 'reordered: same rows, different order or batch boundaries'
   if not deep_close(obs['agg'], obs['full_agg']):
     return f"aggregate: final {obs['agg']} differs from the uninterrupted run's {obs['full_agg']}"
+  if not deep_close(obs.get('ret'), obs.get('full_ret')):
+    return (f"returned: the iterator's return value (StopIteration.value.agg_result) is {obs.get('ret')}, the "
+            f"uninterrupted run returns {obs.get('full_ret')}")
   return None
 
 
@@ -443,7 +449,7 @@ def build_schedule(case, obs, shard_outs):
 
 def threaded_cases(ctx):
   rng = ctx.rng
-  for _ in range(50 if ctx.quick else 400):
+  for _ in range(40 if ctx.quick else 400):
     n = rng.choice([3, 5, 8, 13, 20, 30])
     kind = rng.choice(['seq', 'seq', 'iter'])
     if kind == 'seq':
@@ -469,7 +475,9 @@ def extra(ctx):
   """Tie of the threaded transition system: the schedule observed on the real threads is replayed on the model,
   which must then deliver / lose / aggregate exactly what the real run did."""
   lean = ctx.lean
-  for case in threaded_cases(ctx):
+  cases = list(threaded_cases(ctx))
+  runs = []
+  for case in cases:
     ctx.extra_evals += 1
     ctx.count('threaded_replay', case['threads'])
     obs = run_impl(case)
@@ -481,7 +489,10 @@ def extra(ctx):
       continue
     base = _req(case, [])
     base['threads'] = case['threads']
-    part = lean.ask_many([base])[0]
+    runs.append((case, obs, base))
+  parts = lean.ask_many([b for _, _, b in runs])
+  todo = []
+  for (case, obs, base), part in zip(runs, parts):
     if part.get('err') or 'driver_error' in part:
       ctx.extra_disagreements.append(('threaded-schedule', case, dict(why=f'model rejects the configuration: {part}')))
       continue
@@ -490,8 +501,9 @@ def extra(ctx):
     except _Unexplained as e:
       ctx.extra_disagreements.append(('threaded-schedule', case, dict(why=f'no schedule of the model explains the run: {e}')))
       continue
-    req = dict(base, ops=sched)
-    r = lean.ask_many([req])[0]
+    todo.append((case, obs, sched, dict(base, ops=sched)))
+  resps = lean.ask_many([q for _, _, _, q in todo])
+  for (case, obs, sched, _), r in zip(todo, resps):
     got = L.surviving(case['ops'], obs['log'], obs['final'])
     lost_impl = sorted(_msdiff(_flat(obs['full']), _flat(got)))
     why = None
